@@ -11,6 +11,7 @@ import (
 	"sort"
 	"strings"
 	"sync"
+	"sync/atomic"
 	"time"
 )
 
@@ -82,27 +83,79 @@ type solverSpec struct {
 	args func(file string, timeout time.Duration) []string
 }
 
+// The time limit of a query is CPU time of the solver process, not wall-clock
+// time: on a loaded machine (other checks, test suites running beside this one)
+// a query that needs 2 s of computation can take a minute of wall-clock time,
+// and a wall-clock limit would turn machine load into "timeout", i.e. into an
+// alarm. The solvers' own (wall-clock) limits are set to the wall cap only.
+const wallCapFactor = 12
+
 var solvers = []solverSpec{
 	{"z3-5.1.0", func(f string, t time.Duration) []string {
-		return []string{"z3-new", "-smt2", fmt.Sprintf("-T:%d", int(t.Seconds())+1), f}
+		return []string{"z3-new", "-smt2", fmt.Sprintf("-T:%d", int(t.Seconds())*wallCapFactor+5), f}
 	}},
 	{"z3-4.8.12", func(f string, t time.Duration) []string {
-		return []string{"z3", "-smt2", fmt.Sprintf("-T:%d", int(t.Seconds())+1), f}
+		return []string{"z3", "-smt2", fmt.Sprintf("-T:%d", int(t.Seconds())*wallCapFactor+5), f}
 	}},
 	{"cvc5-1.0", func(f string, t time.Duration) []string {
-		return []string{"cvc5", fmt.Sprintf("--tlimit=%d", t.Milliseconds()), f}
+		return []string{"cvc5", fmt.Sprintf("--tlimit=%d", t.Milliseconds()*wallCapFactor+5000), f}
 	}},
+}
+
+// cpuSeconds of a running process (user + system), from /proc/<pid>/stat.
+func cpuSeconds(pid int) (float64, bool) {
+	data, err := os.ReadFile(fmt.Sprintf("/proc/%d/stat", pid))
+	if err != nil {
+		return 0, false
+	}
+	// the command name (field 2) is parenthesised and may contain spaces
+	k := bytes.LastIndexByte(data, ')')
+	if k < 0 {
+		return 0, false
+	}
+	f := strings.Fields(string(data[k+1:]))
+	if len(f) < 13 {
+		return 0, false
+	}
+	var ut, stt float64
+	fmt.Sscan(f[11], &ut) // utime: field 14 overall
+	fmt.Sscan(f[12], &stt)
+	return (ut + stt) / 100.0, true // USER_HZ is 100 on Linux
 }
 
 func runSolver(ctx context.Context, sp solverSpec, file string, timeout time.Duration) (status, out string) {
 	args := sp.args(file, timeout)
-	cctx, cancel := context.WithTimeout(ctx, timeout+2*time.Second)
+	cctx, cancel := context.WithTimeout(ctx, timeout*wallCapFactor+8*time.Second)
 	defer cancel()
 	cmd := exec.CommandContext(cctx, args[0], args[1:]...)
 	var buf bytes.Buffer
 	cmd.Stdout = &buf
 	cmd.Stderr = &buf
-	_ = cmd.Run()
+	var cpuOut atomic.Bool
+	if err := cmd.Start(); err == nil {
+		done := make(chan struct{})
+		go func() {
+			tk := time.NewTicker(100 * time.Millisecond)
+			defer tk.Stop()
+			for {
+				select {
+				case <-done:
+					return
+				case <-tk.C:
+					if c, ok := cpuSeconds(cmd.Process.Pid); ok && c > timeout.Seconds() {
+						cpuOut.Store(true)
+						cmd.Process.Kill()
+						return
+					}
+				}
+			}
+		}()
+		_ = cmd.Wait()
+		close(done)
+	}
+	if cpuOut.Load() {
+		return "timeout", buf.String()
+	}
 	out = buf.String()
 	first := strings.TrimSpace(strings.SplitN(out, "\n", 2)[0])
 	switch first {
